@@ -26,6 +26,8 @@ type searchReq struct {
 	// NoCounters: do not pass WithCounters (the way the UCI driver and datagen call the search); the node count is
 	// then read from the last reported line.
 	NoCounters bool `json:"no_counters,omitempty"`
+	// NoOutput: pass WithOutput(nil) (the way datagen calls the search): nothing is reported.
+	NoOutput bool `json:"no_output,omitempty"`
 }
 
 type infoLine struct {
@@ -144,6 +146,9 @@ func runSearch(s *search.Search, b *board.Board, req searchReq) searchRes {
 	var out bytes.Buffer
 	var cnt search.Counters
 	opts := []search.Option{search.WithOutput(&out), search.WithDepth(Depth(req.Depth))}
+	if req.NoOutput {
+		opts[0] = search.WithOutput(nil)
+	}
 	if !req.NoCounters {
 		opts = append(opts, search.WithCounters(&cnt))
 	}
